@@ -407,6 +407,12 @@ Theorem C02_source_beacon_mobility_flag_refuted :
 Proof. exact src_beacon_flag_refuted. Qed.
 Print Assumptions C02_source_beacon_mobility_flag_refuted.
 
+Theorem C02_source_btp_header_of_a_request : forall dp x, 0 <= dp < 65536 -> 0 <= x < 65536 ->
+  (let '(a, b) := BTPA_initialize_with_request dp x in BTPA_encode a b) = Some (enc_btp [dp; x]) /\
+  (let '(a, b) := BTPB_initialize_with_request dp x in BTPB_encode a b) = Some (enc_btp [dp; x]).
+Proof. exact src_btp_for_request. Qed.
+Print Assumptions C02_source_btp_header_of_a_request.
+
 Example C02_source_example :
   LPV_encode 0 5 [0; 0; 0; 0; 43; 103] 123456 (-338688000) (-1512093000) 1 (-300) 3599
   = Some (enc_lpv [0; 5; 11111; 123456; -338688000; -1512093000; 1; -300; 3599]).
